@@ -713,16 +713,11 @@ handle_new_connection(struct qb_ipcs_service *s,
 		res = -ENAMETOOLONG;
 		goto send_response;
 	}
+	/* 0700 and ours until the accept callback has had its say */
 	if (mkdtemp(c->description) == NULL) {
 		res = -errno;
 		goto send_response;
 	}
-	if (chmod(c->description, 0770)) {
-		res = -errno;
-		goto send_response;
-	}
-	/* chown can fail because we might not be root */
-	(void)chown(c->description, c->auth.uid, c->auth.gid);
 
 	/* We can't pass just a directory spec to the clients */
 	memcpy(c->description + desc_len, suffix, sizeof suffix);
@@ -751,6 +746,25 @@ handle_new_connection(struct qb_ipcs_service *s,
 
 	qb_util_log(LOG_DEBUG, "IPC credentials authenticated (%s)",
 		    c->description);
+
+#if defined(QB_LINUX) || defined(QB_CYGWIN)
+	/*
+	 * The directory follows what was authorised (by default the peer,
+	 * owner only) like the files in it: search permission for whoever
+	 * may read.
+	 */
+	c->description[desc_len] = '\0';
+	/* chown can fail because we might not be root */
+	(void)chown(c->description, c->auth.uid, c->auth.gid);
+	if (chmod(c->description, (c->auth.mode & 0777) |
+		  ((c->auth.mode & 0444) >> 2)) != 0) {
+		res = -errno;
+	}
+	memcpy(c->description + desc_len, suffix, sizeof suffix);
+	if (res != 0) {
+		goto send_response;
+	}
+#endif
 
 	if (s->funcs.connect) {
 		res = s->funcs.connect(s, c, &response);
